@@ -372,11 +372,29 @@ def check_euclid(ctx, Grid, X, style, cid, g=None, tag="Grid"):
     dim, n = X.shape
     case = {"X": X, "style": style}
     if g is None:
-        ok, g = ctx.call(Grid, np.arange(2), X, silence_level=3)
+        # the coordinates in the numeric type the caller holds them in
+        # (single precision when that loses nothing); the caller's buffer is
+        # refilled afterwards - the grid keeps the coordinates it was given
+        Xc = np.array(X, dtype=np.float64)
+        if np.array_equal(Xc.astype(np.float32).astype(np.float64), Xc) \
+                and (dim + n) % 2:
+            Xc = Xc.astype(np.float32)
+            ctx.count("euclid_float32_inputs")
+        tc = np.arange(2, dtype=Xc.dtype)
+        ok, g = ctx.call(Grid, tc, Xc, silence_level=3)
         if not ok:
             ctx.violation(f"Grid:constructor-raises:{type(g).__name__}",
                           {**case, "exc": repr(g)}, cid)
             return None
+        Xc *= 3
+        Xc += 1
+        tc += 5
+        kept = np.array([np.asarray(g.sequence(k), dtype=np.float64)
+                         for k in range(dim)]) if dim else np.zeros((0, n))
+        if kept.shape != (dim, n) or not np.array_equal(
+                kept, ref.f32(X).astype(np.float64)):
+            ctx.violation("Grid:coordinates-follow-the-caller's-buffer",
+                          {**case, "kept": kept}, cid)
     ok, D = ctx.call(g.euclidean_distance)
     ctx.evals()
     if not ok:
@@ -651,6 +669,23 @@ def check_network(ctx, GeoGrid, GeoNetwork, lat, lon, A, directed, wtype,
     ok, _ = ctx.call(net.set_node_weight_type, wtype)
     if ok:
         weights(wtype, "custom-weights-then-same-type")
+    # a network that comes back from a file format without node attributes
+    # gets the geographic weights of its grid (default type: surface)
+    if n >= 2 and A.sum() > 0:
+        fmt = ["edgelist", "adjacency", "pajek"][int(A.sum()) % 3]
+        ok, _ = ctx.call(net.set_node_weight_type, "surface")
+        oks, e = ctx.call(net.save, ("c12net." + fmt, "c12net.grid"),
+                          fileformat=fmt)
+        if oks:
+            okl, ln = ctx.call(GeoNetwork.Load,
+                               ("c12net." + fmt, "c12net.grid"),
+                               fileformat=fmt, silence_level=3)
+            if okl and ln.N == n:
+                net_, net = net, ln
+                weights("surface", "Load:" + fmt)
+                net = net_
+                ctx.count("loaded_network_weights_checked")
+        ctx.call(net.set_node_weight_type, wtype)
     # the climate-network classes on the same grid (default type: surface),
     # also after the network has been re-thresholded
     if n >= 2 and not directed:
